@@ -282,7 +282,84 @@ def _iter_next(ex, st, r):
         return m_enumerate_next(ex, st, None, [r])
     if v.ty == 'BitIterator':
         return m_bititer_next(ex, st, None, [r])
+    if v.ty == 'MapIter':
+        x = _iter_next(ex, st, r.ext(('f', 0)))
+        if x.disc == 0:
+            return none()
+        return some(call_closure(ex, st, r.ext(('f', 1)), [x.payload['Some'][0]]))
+    if v.ty in ('Filter', 'TakeWhile', 'SkipWhile'):
+        if v.ty == 'TakeWhile' and v.f[2] is True:
+            return none()
+        while True:
+            x = _iter_next(ex, st, r.ext(('f', 0)))
+            if x.disc == 0:
+                return none()
+            item = x.payload['Some'][0]
+            keep = call_closure(ex, st, r.ext(('f', 1)), [ex.alloc(st, item, 'pred-arg')])
+            keep = simp_bool(keep)
+            if not isinstance(keep, bool):
+                raise Inconclusive('symbolic predicate in iterator adaptor %s' % v.ty)
+            if v.ty == 'Filter':
+                if keep:
+                    return some(item)
+                continue
+            if v.ty == 'TakeWhile':
+                if keep:
+                    return some(item)
+                ex.store(st, r.ext(('f', 2)), True)
+                return none()
+    if v.ty == 'Skip':
+        n = v.f[1]
+        while n > 0:
+            x = _iter_next(ex, st, r.ext(('f', 0)))
+            n -= 1
+            if x.disc == 0:
+                break
+        ex.store(st, r.ext(('f', 1)), 0)
+        return _iter_next(ex, st, r.ext(('f', 0)))
+    if v.ty == 'Chain':
+        if v.f[2] is False:
+            x = _iter_next(ex, st, r.ext(('f', 0)))
+            if x.disc != 0:
+                return x
+            ex.store(st, r.ext(('f', 2)), True)
+        return _iter_next(ex, st, r.ext(('f', 1)))
+    if v.ty == 'OptionIter':
+        o = v.f[0]
+        ex.store(st, r, Agg('OptionIter', (none(),)))
+        return o
     raise Inconclusive('next on %r' % (v,))
+
+
+def m_iter_adapt(kind):
+    def h(ex, st, m, a):
+        if kind == 'MapIter':
+            return Agg('MapIter', (a[0], a[1]))
+        if kind in ('Filter', 'TakeWhile', 'SkipWhile'):
+            return Agg(kind, (a[0], a[1], False))
+        if kind == 'Skip':
+            if not a[1].concrete:
+                raise Inconclusive('symbolic skip count')
+            return Agg('Skip', (a[0], a[1].v))
+        if kind == 'Chain':
+            other = a[1]
+            if isinstance(other, Enum) and other.ty == 'Option':
+                other = Agg('OptionIter', (other,))
+            return Agg('Chain', (a[0], other, False))
+        raise Inconclusive(kind)
+    return h
+
+
+def m_collect_vec(ex, st, m, a):
+    it = ex.alloc(st, a[0], 'collect')
+    out = []
+    while True:
+        x = _iter_next(ex, st, it)
+        if x.disc == 0:
+            return Agg('Vec', out)
+        out.append(x.payload['Some'][0])
+        if len(out) > 100000:
+            raise Inconclusive('collect does not terminate')
 
 
 def m_zip_next(ex, st, m, a):
@@ -636,6 +713,12 @@ STD_MODELS = [
     (r'<.+ as Iterator>::zip::<.+>', m_zip),
     (r'<.+ as Iterator>::enumerate', m_enumerate),
     (r'<.+ as Iterator>::for_each::<.+>', m_for_each),
+    (r'<.+ as Iterator>::map::<.+>', m_iter_adapt('MapIter')),
+    (r'<.+ as Iterator>::filter::<.+>', m_iter_adapt('Filter')),
+    (r'<.+ as Iterator>::take_while::<.+>', m_iter_adapt('TakeWhile')),
+    (r'<.+ as Iterator>::skip', m_iter_adapt('Skip')),
+    (r'<.+ as Iterator>::chain::<.+>', m_iter_adapt('Chain')),
+    (r'<.+ as Iterator>::collect::<Vec<.+>>', m_collect_vec),
     (r'<.+ as Iterator>::all::<.+>', m_iter_all),
     (r'<.+ as Iterator>::next', m_generic_next),
     (r'core::slice::<impl \[.+\]>::iter(_mut)?', m_slice_iter),
